@@ -180,6 +180,33 @@ def createPayload (enc : JVal → String) (f view : JVal) (createOv : Option Ste
 def patchPayload (enc : JVal → String) (expected live ownerRef : JVal) (shouldOwn reffed : Bool) : Option JVal :=
   (withOwner (shouldOwn && !reffed) live ownerRef expected).bind (prepareForApi enc)
 
+/-! ## inline overlays with evaluated leaves (what the correspondence instantiates `Step` with) -/
+
+/-- An overlay as `_overlay_indexer` splits it: `node` = a non-empty map written in the overlay,
+    `leaf` = anything else, already evaluated (a literal, or what an `=inputs.x` expression gave).
+    (A small private copy; the compile/apply machinery itself is C12's subject.) -/
+inductive Ov where
+  | leaf (v : JVal)
+  | node (kvs : List (String × Ov))
+  deriving Repr, Inhabited
+
+mutual
+/-- `_overlay_applier`: a leaf replaces, a node merges into the base's map (or into a fresh one
+    when the base has no map there) -/
+def Ov.apply (base : JVal) : Ov → JVal
+  | .leaf v => v
+  | .node kvs =>
+    .obj (Ov.applyL (match base with
+                     | .obj b => b
+                     | _ => []) kvs)
+def Ov.applyL (b : List (String × JVal)) : List (String × Ov) → List (String × JVal)
+  | [] => b
+  | (k, o) :: rest => Ov.applyL (JVal.insert k (Ov.apply ((JVal.lookup k b).getD .null) o) b) rest
+end
+
+/-- an inline overlay / an overlayRef ValueFunction's `return` / create.overlay as a step -/
+def Ov.step (o : Ov) : Step := fun r => some (o.apply r)
+
 /-- a prepared ResourceFunction, as far as `reconcile_krm_resource` looks at it -/
 structure Rf where
   api : ApiClass
